@@ -137,6 +137,36 @@ NoEquivocation ==
 
 View == <<rs, inq, soup>>
 
+\* ------------------------------------------------------------------ adversarial prefixes (C03)
+\* States "regardless of what happened before that moment" of C03 calls out.  TLC finds a behaviour that
+\* reaches each of them (as a violation of ~Goal in simulation mode); the behaviour is stored under
+\* spec/attacks/C03 and replayed on real nodes as the asynchronous prefix before the synchronous suffix.
+Undecided == \A n \in Corr : rs[n].decision = Nil /\ ~Dead(rs[n])
+\* two correct nodes locked on different blocks, the older lock's owner has left the round of the newer
+\* lock without having seen its polka (it can only learn it as a LATE polka)
+GoalSplitLockStale ==
+  /\ Undecided
+  /\ \E a, b \in Corr :
+        /\ a # b /\ rs[a].lockedV # Nil /\ rs[b].lockedV # Nil /\ rs[a].lockedV # rs[b].lockedV
+        /\ rs[a].lockedR < rs[b].lockedR /\ rs[a].round > rs[b].lockedR
+        /\ ~HasMaj23(rs[a].pv[rs[b].lockedR])
+\* a node knows the commit (+2/3 precommits) but not the block, the others are still undecided and unlocked from it
+GoalCommitWithoutBlock ==
+  \E a \in Corr : rs[a].step = StCommit /\ rs[a].propBlock = Nil /\ rs[a].decision = Nil
+                   /\ \E b \in Corr : b # a /\ rs[b].decision = Nil /\ rs[b].step < StCommit
+\* one node decided, another is locked on that block in an earlier round and a third is not locked at all
+GoalOneDecidedOthersBehind ==
+  \E a, b \in Corr : a # b /\ rs[a].decision # Nil /\ rs[b].decision = Nil /\ rs[b].round >= 1
+\* a valid block that is not the locked block of some other node (stale proposals with POL rounds)
+GoalValidVsLock ==
+  /\ Undecided
+  /\ \E a, b \in Corr : a # b /\ rs[a].validV # Nil /\ rs[b].lockedV # Nil /\ rs[a].validV # rs[b].lockedV
+                          /\ rs[a].round >= 2 /\ rs[b].round >= 2
+NoGoalSplitLockStale == ~GoalSplitLockStale
+NoGoalCommitWithoutBlock == ~GoalCommitWithoutBlock
+NoGoalOneDecidedOthersBehind == ~GoalOneDecidedOthersBehind
+NoGoalValidVsLock == ~GoalValidVsLock
+
 \* sanity / coverage goals (used as "~Goal" invariants to obtain witnesses)
 NoDecision   == \A a \in Corr : rs[a].decision = Nil
 NoRound1     == \A a \in Corr : rs[a].round = 0
